@@ -183,6 +183,22 @@ async def scenario(world: WorldA) -> None:
         base = world.now()
         world.loop.stalls_on = True
         man.on_delivery.append(lambda d: events.append(d))
+        # the connection's notion of "the spa answered a ping" (the time of the last ping reply) is client state: watch every change of it
+        lp_state: Dict[str, Any] = {"spa": None, "val": None}
+        lp_changes: List[Dict[str, Any]] = []
+        world.cfg["_lp_changes"] = lp_changes
+
+        def lp_monitor() -> None:
+            spa = sysm.spa
+            if spa is None or not hasattr(spa, "_last_ping"):
+                return
+            v = spa._last_ping
+            if lp_state["spa"] is not spa:
+                lp_state.update(spa=spa, val=v)
+            elif v != lp_state["val"]:
+                lp_state["val"] = v
+                lp_changes.append({"t": world.now(), "label": getattr(spa, "_verif_label", None)})
+        world.loop.monitors.append(lp_monitor)
         tasks: List[asyncio.Task] = []
 
         async def call(op):
@@ -370,6 +386,21 @@ def check(world: WorldA, sysm: System, labels, events, rf_addressed: int) -> Non
             for pos in range(800, 1010):
                 if blk[pos:pos + 2] == SENTINEL:
                     world.violate(PROP, "misaddressed-effect", f"{label}: sentinel bytes of a mis-addressed packet found in the client block at {pos}")
+    # the time of the last ping reply moves only when the ping loop has just taken a ping reply from the queue; a mis-addressed packet
+    # consumed at that moment must not be what moved it
+    for c in world.cfg.get("_lp_changes", []):
+        q = sysm.queues.get(c["label"])
+        if q is None:
+            continue
+        near = [(it, p) for it in q.items for p in it["pops"] if c["t"] - 0.15 <= p["t"] <= c["t"] + 1e-9]
+        if any(it["item"][0].startswith(b"APING") for it, p in near if str(p["by"]).startswith("SPA:Ping loop")):
+            res.probe("ping_time_moved_by_ping_reply")
+            continue
+        mis = [lab_of(labels, it["item"][0], it["item"][1]) for it, p in near]
+        mis = [m for m in mis if m is not None and m.get("kind") == "misaddr"]
+        if mis:
+            world.violate(PROP, "misaddressed-effect", f"{c['label']}: the connection's last-ping time moved at {c['t']:.3f} although the ping loop had "
+                          f"taken no ping reply; a mis-addressed packet ({mis[0].get('how')}) was consumed just before", sig="misaddressed-effect:last-ping-moved")
     # RF events only from properly addressed RFERR
     rf_events = sum(1 for d in events if d["event"].name == "ERROR_RF_ERROR")
     if rf_events > rf_addressed:
